@@ -1,6 +1,7 @@
 package main
 
 import (
+	"encoding/json"
 	"flag"
 	"fmt"
 	"os"
@@ -22,6 +23,8 @@ func main() {
 		cmdDump(os.Args[2:])
 	case "check":
 		os.Exit(cmdCheck(os.Args[2:]))
+	case "explain":
+		os.Exit(cmdExplain(os.Args[2:]))
 	case "funcs":
 		p := mustLoad("/repo")
 		for _, f := range p.Funcs {
@@ -136,4 +139,57 @@ func cmdCheck(args []string) (code int) {
 	c := NewCtx(p, *prop, *tier)
 	def.Rules(c)
 	return c.finish(*verif, def.Info, start, !*noEv)
+}
+
+// cmdExplain re-runs the property named in a replay file against the current tree and prints the
+// obligation(s) with the same rule and construct, with their traces.
+func cmdExplain(args []string) int {
+	fs := flag.NewFlagSet("explain", flag.ExitOnError)
+	repo := fs.String("repo", "/repo", "")
+	fs.Parse(args)
+	b, err := os.ReadFile(fs.Arg(0))
+	if err != nil {
+		fmt.Println("cannot read replay file:", err)
+		return 2
+	}
+	var o Obligation
+	if err := json.Unmarshal(b, &o); err != nil || o.Prop == "" {
+		fmt.Printf("replay file does not name an obligation: %s\n", string(b))
+		return 2
+	}
+	def := registry[o.Prop]
+	if def == nil {
+		fmt.Println("unknown property", o.Prop)
+		return 2
+	}
+	p, err := loadProgram(*repo, "")
+	if err != nil {
+		fmt.Println("LOAD ERROR:", err)
+		return 1
+	}
+	c := NewCtx(p, o.Prop, "replay")
+	def.Rules(c)
+	found, failing := 0, 0
+	for _, x := range c.Obs {
+		if x.Rule == o.Rule && strings.Split(x.Construct, "#")[0] == strings.Split(o.Construct, "#")[0] {
+			found++
+			st := "discharged"
+			if !x.OK {
+				st = x.Reason
+				failing++
+			}
+			fmt.Printf("%s.%s %s (%s): %s — %s\n", x.Prop, x.Rule, x.Construct, x.Pos, st, x.Msg)
+			if x.Detail != "" {
+				fmt.Println(x.Detail)
+			}
+		}
+	}
+	if found == 0 {
+		fmt.Printf("obligation %s no longer exists on this tree\n", o.Key())
+	}
+	if failing > 0 {
+		fmt.Printf("VIOLATION property=%s replay=%s\n", o.Prop, fs.Arg(0))
+		return 1
+	}
+	return 0
 }
